@@ -1,1 +1,2 @@
 import Sonic.Go.Prelude
+import Sonic.Props.C10
